@@ -1759,7 +1759,7 @@ class Rectifier(_Component):
             if not isinstance(rs, list):
                 if not isinstance(rs, (int, float)):
                     raise ValueError("rs values must be numbers!")
-                self._params["rs"] = abs(rs)
+                rs = abs(rs)
             elif not all(isinstance(e, (int, float)) for e in rs):
                 raise ValueError("rs values must be numbers!")
             self._params["rs"] = rs
